@@ -475,8 +475,19 @@ func DownloadFolderHandler(rwc io.ReadWriter, fullPath string, fileTransfer *Fil
 			"TransferSize", fmt.Sprintf("%x", hlFile.Ffo.TransferSize(dataOffset)),
 		)
 
+		// The resource fork part (fork header and bytes) follows the data unless the client resumes.  The size sent to the
+		// client counts exactly what follows: TransferSize includes the stored resource fork's bytes but not its 16-byte
+		// fork header, and it includes them also when the resource fork part is not sent.
+		rsrcSize := binary.BigEndian.Uint32(hlFile.Ffo.FlatFileResForkHeader.DataSize[:])
+		sendRsrc := nextAction[1] != DlFldrActionResumeFile && (hlFile.Ffo.FlatFileHeader.ForkCount[1] == 3 || rsrcSize > 0)
+
+		itemSize := binary.BigEndian.Uint32(hlFile.Ffo.TransferSize(dataOffset)) - rsrcSize
+		if sendRsrc {
+			itemSize += 16 + rsrcSize
+		}
+
 		// Send file size to client
-		if _, err := rwc.Write(hlFile.Ffo.TransferSize(dataOffset)); err != nil {
+		if _, err := rwc.Write(binary.BigEndian.AppendUint32(nil, itemSize)); err != nil {
 			rLogger.Error(err.Error())
 			return fmt.Errorf("error sending file size: %w", err)
 		}
@@ -504,19 +515,22 @@ func DownloadFolderHandler(rwc io.ReadWriter, fullPath string, fileTransfer *Fil
 			return fmt.Errorf("error sending file: %w", err)
 		}
 
-		if nextAction[1] != 2 && hlFile.Ffo.FlatFileHeader.ForkCount[1] == 3 {
+		if sendRsrc {
 			err = binary.Write(rwc, binary.BigEndian, hlFile.rsrcForkHeader())
 			if err != nil {
 				return fmt.Errorf("error sending resource fork header: %w", err)
 			}
 
-			rFile, err := hlFile.rsrcForkFile()
-			if err != nil {
-				return fmt.Errorf("error opening resource fork: %w", err)
-			}
+			// A file with a stored information fork but no stored resource fork has an empty resource fork part.
+			if rsrcSize > 0 {
+				rFile, err := hlFile.rsrcForkFile()
+				if err != nil {
+					return fmt.Errorf("error opening resource fork: %w", err)
+				}
 
-			if _, err = io.Copy(rwc, io.TeeReader(rFile, fileTransfer.bytesSentCounter)); err != nil {
-				return fmt.Errorf("error sending resource fork: %w", err)
+				if _, err = io.Copy(rwc, io.TeeReader(rFile, fileTransfer.bytesSentCounter)); err != nil {
+					return fmt.Errorf("error sending resource fork: %w", err)
+				}
 			}
 		}
 
